@@ -642,7 +642,8 @@ struct Gen {
         int ndef = nd < 38 ? 0 : nd < 86 ? 1 : 2;
         for (int k = 0; k < ndef; k++)
         {
-            unsigned cls = (unsigned) t.below(NDEFECT);
+            unsigned cls = (unsigned) t.below(NDEFECT + 3);
+            if (cls >= NDEFECT) cls = cls == NDEFECT + 1 ? 1 : 11;     // extra weight: pathLen violations, copied signatures
             int sub = (int) t.below((uint64_t) mpLen());
             if (sub == mpLen() - 1 && !t.chance(1, 3)) sub = (int) t.below((uint64_t) (mpLen() - 1));
             int iss = 1 + (int) t.below((uint64_t) (mpLen() - 1));
@@ -708,9 +709,10 @@ struct Gen {
         Node &E = cs.n[(size_t) e];
         E.selfIssued = false;
         unsigned nv = (unsigned) t.below(8);
-        if (nv < 4) E.issuerName = E.subj;                                   // looks self-issued
-        else if (nv < 6) E.issuerName = new_name("Nonexistent CA");
-        else if (nv < 7) E.issuerName = cs.n[(size_t) victim].subj;           // DN matches the anchor: signature must then be verified
+        if (nv < 3) E.issuerName = E.subj;                                   // looks self-issued
+        else if (nv < 5) E.issuerName = new_name("Nonexistent CA");
+        else if (nv < 7) E.issuerName = cs.n[(size_t) victim].subj;           // DN matches the anchor: the copied signature is really verified,
+                                                                              // under whatever algorithm the forged certificate declares
         else E.issuerName = cs.n[(size_t) mainPath[0]].subj;
         E.aki = AKI_ABSENT;
         unsigned sv = (unsigned) t.below(8);
